@@ -248,7 +248,37 @@ def _val(v):
     if isinstance(v, complex):
         return {'type': t, 'repr': repr(v), 'neg': False,
                 're': _val(v.real), 'im': _val(v.imag)}
-    return {'type': t, 'repr': repr(v) if len(repr(v)) < 400 else 'sha:' + repr(hash(v)), 'neg': False}
+    if isinstance(v, int) and not isinstance(v, bool) and abs(v) > 10 ** 300:
+        return {'type': t, 'repr': 'hexhash:%d:%s' % (v.bit_length(), hash(hex(v))), 'neg': v < 0}
+    try:
+        rv = repr(v)
+    except Exception as e:
+        rv = 'unreprable:' + exc_name(e)
+    return {'type': t, 'repr': rv if len(rv) < 400 else 'hash:' + repr(hash(rv)), 'neg': False}
+
+
+def _valr(v, depth=0):
+    if isinstance(v, (tuple, list)) and depth < 3:
+        return {'type': type(v).__name__, 'items': [_valr(x, depth + 1) for x in v]}
+    return _val(v)
+
+
+def op_evalmod(req):
+    """exec each module text in a fresh namespace and describe the value bound to `r` (or the exception type)"""
+    out = []
+    for b in req['mods_b64']:
+        src = b64d(b)
+        if not PY2:
+            src = src.decode('utf-8', 'surrogatepass')
+        ns = {}
+        try:
+            exec(compile(src, 'm', 'exec', dont_inherit=True), ns)
+            d = _valr(ns.get('r'))
+            d['exc'] = ''
+        except BaseException as ex:   # noqa
+            d = {'type': '', 'repr': '', 'neg': False, 'exc': exc_name(ex)}
+        out.append(d)
+    return {'vals': out}
 
 
 def op_eval(req):
@@ -310,7 +340,7 @@ def op_ping(req):
     return {'version': list(sys.version_info[:3]), 'minifier': os.path.dirname(python_minifier.__file__)}
 
 
-OPS = {'minify': op_minify, 'roundtrip': op_roundtrip, 'eval': op_eval, 'exec': op_exec, 'ping': op_ping}
+OPS = {'evalmod': op_evalmod, 'minify': op_minify, 'roundtrip': op_roundtrip, 'eval': op_eval, 'exec': op_exec, 'ping': op_ping}
 
 
 def main():
